@@ -95,3 +95,38 @@ Example lx_failure_containment_hypotheses_satisfiable :
   status (c_st (l_core (fst r1))) = [Solved; Failed; Unsolved] /\
   map (fun ic => status (c_st (snd ic))) (l_subs (fst r1)) = [[Solved; Failed; Unsolved]; [Solved; Failed; Unsolved]].
 Proof. vm_compute. repeat split. Qed.
+
+(* ---- a history: all submodels solved at period 1; then only A re-solved there with max_iter = 0: A reads 'F' / 0,
+        the linker 'F' / 0, and B — unselected in the second call — keeps the '.' / 4 the first call stamped ---- *)
+Example lx_history_keeps_earlier_stamps :
+  let r := f_linker_history lx_ss lx_hs [(None, lx_opts 0 6, 1); (Some [0%nat], mkOpts 0 0 tolf 0 false ERaise true, 1)] lx_state [] in
+  snd r = [LRet true; LRet false] /\
+  (status (c_st (l_core (fst r))), iters (c_st (l_core (fst r)))) = ([Unsolved; Failed; Unsolved], [-1; 0; -1]) /\
+  map (fun ic => (status (c_st (snd ic)), iters (c_st (snd ic)))) (l_subs (fst r))
+    = [([Unsolved; Failed; Unsolved], [-1; 0; -1]); ([Unsolved; Solved; Unsolved], [-1; 4; -1])].
+Proof. vm_compute. repeat split. Qed.
+
+(* ---- "a linker that wraps a single model and adds no equations solves it to the same statuses, iteration counts and
+        values as solving that model directly" is FALSE of the faithful model outside the premises of
+        single_model_linker_eq_model: BaseLinker.solve_t lacks three things BaseModel.solve_t has ---- *)
+Lemma single_model_linker_eq_model_refuted :
+  (* (1) no feasibility guard: at a period without room for the model's lags the model raises IndexError and changes
+         nothing, the linker evaluates it (wrapped reads) and declares it solved *)
+  (exists d o, feasible d 3 1 = false /\ min_iter o <= max_iter o /\ offset o = 0 /\
+               lx_mrun lx_scA d o = (lx_mA, Raise IndexError) /\ snd (lx_lrun lx_scA d o) = LRet true) /\
+  (* (2) no min_iter > max_iter guard in solve_t: ValueError and nothing changed vs. max_iter iterations and 'F' *)
+  (exists o, max_iter o < min_iter o /\
+             lx_mrun lx_scA lx_dA o = (lx_mA, Raise ValueError) /\
+             snd (lx_lrun lx_scA lx_dA o) = LRaise (LExn NonConvergenceError) /\
+             map (fun ic => status (c_st (snd ic))) (l_subs (fst (lx_lrun lx_scA lx_dA o))) = [[Unsolved; Failed; Unsolved]]) /\
+  (* (3) no error policy: a NaN check value under errors='raise' is SolutionError and 'E' for the model; the linker
+         just compares it, iterates on and declares the period solved *)
+  (exists sc o, errors o = ERaise /\
+                snd (lx_mrun sc lx_dA o) = Raise (SolutionError None) /\ status (fst (lx_mrun sc lx_dA o)) = [Unsolved; ErrorSt; Unsolved] /\
+                snd (lx_lrun sc lx_dA o) = LRet true).
+Proof.
+  split; [|split].
+  - exists (mkDesc [0%nat] [0%nat] 2 0), (lx_opts 0 6). vm_compute. repeat split; congruence.
+  - exists (lx_opts 3 2). vm_compute. repeat split.
+  - exists lx_sc_nan, (lx_opts 0 6). vm_compute. repeat split.
+Qed.
